@@ -4,6 +4,13 @@ import Pxv.Lemmas.Matchit
 namespace Pxv.Router
 open Pxv.Matchit
 
+instance exceptDecEq {ε α : Type} [DecidableEq ε] [DecidableEq α] : DecidableEq (Except ε α) := fun a b =>
+  match a, b with
+  | .ok x, .ok y => if h : x = y then isTrue (by rw [h]) else isFalse (by intro e; cases e; exact h rfl)
+  | .error x, .error y => if h : x = y then isTrue (by rw [h]) else isFalse (by intro e; cases e; exact h rfl)
+  | .ok _, .error _ => isFalse (by intro e; cases e)
+  | .error _, .ok _ => isFalse (by intro e; cases e)
+
 /-! ### route ids are positions in the table -/
 
 theorem mem_routes_iff {r : PathRouter} {i : Nat} {p : List Char} :
